@@ -54,7 +54,7 @@ ASSUMPTIONS = [
     "only to give a failing run a stable signature, never to accept it",
 ]
 
-TIMESTEPS = [2, 1, 0.5, 0.25]
+TIMESTEPS = [2, 1, 0.5, 0.25, 0.1, 0.2]
 ATOMS = ["c0", "c1", "c2", "c3"]
 
 # ---------------------------------------------------------------------------------------------
@@ -82,9 +82,12 @@ def programs(draw):
         return a if draw(st.integers(0, 6)) == 6 else "!" + a
 
     def dur():
-        if draw(st.booleans()):
+        k = draw(st.integers(0, 4))
+        if k < 2:
             return draw(st.integers(1, 4)), "steps"
-        return draw(st.integers(1, 12)) * 0.25, "seconds"
+        if k < 4:
+            return draw(st.integers(1, 12)) * 0.25, "seconds"
+        return draw(st.integers(1, 15)) / 10, "seconds"  # decimal, e.g. 0.3 seconds
 
     def ensure_yield(body, ctx):
         if not any(s[0] in ("take", "wait") for s in body):
@@ -268,7 +271,14 @@ def plans(draw, prog):
         for _ in range(draw(st.integers(1, 3))):
             sched.append(draw(st.permutations(names)))
     kind = draw(st.sampled_from(["list", "list", "list", "list", "tuple", "list", "list", "iter"]))
+    pre = None
+    if draw(st.integers(0, 5)) == 0:
+        # a first attempt of simulate(maxIterations=2) under another table (all atoms true from
+        # step k on: requirements/guards written with "!c" then fail and reject the attempt)
+        k = draw(st.integers(0, n))
+        pre = {a: [1 if t >= k else 0 for t in range(n + 1)] for a in ATOMS}
     return {"table": table, "schedule": [list(s) for s in sched], "schedule_kind": kind,
+            "same_scene": draw(st.integers(0, 2)) == 0, "pre": pre,
             "maxSteps": n,
             "timestep": draw(st.sampled_from(TIMESTEPS)), "raise": draw(st.booleans())}
 
@@ -314,7 +324,7 @@ def expected_set(prog, plan, defects=None, ti_flags=None):
         if on in seen:
             continue
         m = M.Machine(prog, plan["table"], plan["schedule"], plan["maxSteps"],
-                      _frac(plan["timestep"]), flags={f: True for f in on}, defects=defects,
+                      plan["timestep"], flags={f: True for f in on}, defects=defects,
                       ti_flags=ti_flags)
         try:
             r = m.run()
@@ -330,6 +340,29 @@ def expected_set(prog, plan, defects=None, ti_flags=None):
                 if alt not in seen and alt not in todo and len(seen) + len(todo) < 16:
                     todo.append(alt)
     return results
+
+
+def expected_for(prog, plan, defects=None, ti_flags=None):
+    """Expected outcomes of one simulate() call; with plan["pre"], of simulate(maxIterations=2)
+    whose first attempt runs under the table plan["pre"]."""
+    if plan.get("pre"):
+        first = expected_set(prog, dict(plan, table=plan["pre"], pre=None), defects, ti_flags)
+        if isinstance(first, str):
+            return first
+        rej = [r["status"] == "rejected" or (r["status"] == "guard" and not plan["raise"])
+               for r in first]
+        if all(rej):
+            for r in first:
+                r["features"].add("first-attempt-rejected")
+            second = expected_set(prog, dict(plan, pre=None), defects, ti_flags)
+            if not isinstance(second, str):
+                for r in second:
+                    r["features"].add("second-attempt")
+            return second
+        if any(rej):
+            return "unjudged:first-attempt-rejected-under-some-readings"
+        return first
+    return expected_set(prog, plan, defects, ti_flags)
 
 
 def _frac(x):
@@ -374,7 +407,7 @@ def compare(obs, exp, n_initial, raise_guards):
         dt = obs["timestep"]
         for t, state in enumerate(r["trajectory"]):
             for p in state[:n_initial]:
-                if p[0] != t * dt:
+                if abs(p[0] - t * dt) > 1e-9:
                     return "trajectory-state"
     else:
         # rejected runs: the steps completed before the rejection must be as expected
@@ -420,8 +453,9 @@ def judge(case):
     n_initial = sum(1 for s in prog["scenarios"][0]["setup"] if s[0] == "obj")
     judged = 0
     poisoned = False
+    prev_scene = None
     for plan in case["runs"]:
-        exps = expected_set(prog, plan)
+        exps = expected_for(prog, plan)
         if isinstance(exps, str):
             out.cls(exps if exps == "stall" else exps.split(" ")[0])
             out.cls("run:" + ("stall" if exps == "stall" else "unjudged"))
@@ -431,8 +465,15 @@ def judge(case):
             continue
         p = dynsim.Plan(plan["table"], plan["schedule"], plan.get("schedule_kind", "list"))
         out.cls("sched:" + plan.get("schedule_kind", "list"))
+        if plan.get("pre"):
+            p.attempts = [plan["pre"], plan["table"]]
+        reuse = prev_scene if plan.get("same_scene") else None
+        if reuse is not None:
+            out.cls("scene:reused")
         obs = dynsim.run(scenario, p, maxSteps=plan["maxSteps"], timestep=plan["timestep"],
-                         raiseGuardViolations=plan["raise"])
+                         raiseGuardViolations=plan["raise"], scene=reuse,
+                         maxIterations=2 if plan.get("pre") else 1)
+        prev_scene = obs.pop("scene")
         obs["timestep"] = plan["timestep"]
         judged += 1
         if obs["left_running"]:
@@ -440,6 +481,7 @@ def judge(case):
                      plan=plan)
             src, scenario = compile_prog(prog)
             poisoned = True
+            prev_scene = None
         feats = set().union(*[r["features"] for r in exps])
         out.cls("run:judged", *["f:" + f for f in sorted(feats)])
         if len(exps) > 1:
@@ -466,7 +508,7 @@ def judge(case):
                 [(dict(d, sched_consumed=True), t + "+one-shot-schedule-consumed-by-validation")
                  for d, t in DEFECT_MODELS]
         for dset, title in models:
-            alt = expected_set(prog, plan, defects=dset)
+            alt = expected_for(prog, plan, defects=dset)
             if not isinstance(alt, str) and any(
                     compare(obs, r, n_initial, plan["raise"]) is None for r in alt):
                 sig = f"defect:{title}|wrong-run"
@@ -502,7 +544,8 @@ def interesting(exp):
 def grid_cases():
     forever = lambda k: [["while", None, [["take", k]]]]  # noqa: E731
     DURS = [(1, "steps"), (2, "steps"), (3, "steps"), (0.5, "seconds"), (0.75, "seconds"),
-            (1, "seconds"), (1.5, "seconds"), (2, "seconds")]
+            (1, "seconds"), (1.5, "seconds"), (2, "seconds"), (0.3, "seconds"),
+            (0.7, "seconds"), (1.2, "seconds")]
     MON = {"name": "M0", "body": [["while", None, [["log", "m"], ["wait"]]]]}
 
     def base():
